@@ -561,4 +561,69 @@ theorem proposersOf_mem {st : State} {e : Nat} {active : List Nat} {p : Proposer
       cases h
       exact mapM_ok_forall _ _ (fun x _ y hy => compute_proposer_index_mem hy) hps
 
+/-! ### soundness of the executable step checks -/
+
+theorem fieldWriteB_sound {cfg : Config} {N old new : Nat} (h : fieldWriteB cfg N old new = true) :
+    FieldWrite cfg N old new := by
+  unfold fieldWriteB at h
+  simp only [Bool.or_eq_true, Bool.and_eq_true, decide_eq_true_eq] at h
+  exact h
+
+/-- the executable check decides (soundly) the write relation the theorems assume -/
+theorem epochWritesB_sound' {cfg : Config} {N : Nat} {st st' : State} (h : epochWritesB cfg N st st' = true) :
+    EpochWrites cfg N st st' := by
+  unfold epochWritesB at h
+  simp only [Bool.and_eq_true, decide_eq_true_eq, List.all_eq_true] at h
+  obtain ⟨⟨⟨⟨hlen, hold⟩, hnew⟩, hml⟩, hmix⟩ := h
+  refine ⟨hlen, ?_, ?_, ?_, hml, ?_⟩
+  · intro i v v' hv hv'
+    have hi : i < st.validators.length := (List.getElem?_eq_some_iff.mp hv).1
+    have := hold i (List.mem_range.mpr hi)
+    rw [hv, hv'] at this
+    simp only [Bool.and_eq_true] at this
+    exact fieldWriteB_sound this.1
+  · intro i v v' hv hv'
+    have hi : i < st.validators.length := (List.getElem?_eq_some_iff.mp hv).1
+    have := hold i (List.mem_range.mpr hi)
+    rw [hv, hv'] at this
+    simp only [Bool.and_eq_true] at this
+    exact fieldWriteB_sound this.2
+  · intro i v' hi hv'
+    have hi' : i < st'.validators.length := (List.getElem?_eq_some_iff.mp hv').1
+    have := hnew i (List.mem_range'_1.mpr ⟨hi, by omega⟩)
+    rw [hv'] at this
+    simpa using this
+  · intro j h1 h2
+    by_cases hj : j < st.randao_mixes.length
+    · have := hmix j (List.mem_range.mpr hj)
+      simp only [Bool.or_eq_true, decide_eq_true_eq] at this
+      rcases this with (h | h) | h
+      · exact absurd h h1
+      · exact absurd h h2
+      · exact h
+    · rw [List.getElem?_eq_none (by omega), List.getElem?_eq_none (by omega)]
+
+theorem inEpochHypsB_sound {st st' : State} (h : inEpochHypsB st st' = true) :
+    st'.validators = st'.validators.take st.validators.length ++ st'.validators.drop st.validators.length ∧
+    (st'.validators.take st.validators.length).map (·.pubkey) = st.validators.map (·.pubkey) ∧
+    (st'.validators.take st.validators.length).map (·.effective_balance) = st.validators.map (·.effective_balance) ∧
+    st'.current_sync_committee = st.current_sync_committee ∧ st'.next_sync_committee = st.next_sync_committee := by
+  unfold inEpochHypsB at h
+  simp only [Bool.and_eq_true, decide_eq_true_eq] at h
+  obtain ⟨⟨⟨h1, h2⟩, h3⟩, h4⟩ := h
+  exact ⟨(List.take_append_drop _ _).symm, h1, h2, h3, h4⟩
+
+theorem boundaryHypsB_sound {cfg : Config} {N : Nat} {st st' : State} (h : boundaryHypsB cfg N st st' = true) :
+    st'.validators.map (·.pubkey) = st.validators.map (·.pubkey) ∧ SyncStep cfg N st st' := by
+  unfold boundaryHypsB at h
+  simp only [Bool.and_eq_true, decide_eq_true_eq] at h
+  obtain ⟨h1, h2⟩ := h
+  refine ⟨h1, ?_, ?_⟩
+  · intro hf hp
+    rw [if_pos ⟨hf, hp⟩] at h2
+    simpa using h2
+  · intro hn
+    rw [if_neg hn] at h2
+    simpa using h2
+
 end Zrnt.Proofs.Ctx
